@@ -20,7 +20,7 @@ ASSUMPTIONS = [
 ]
 MANIFEST = {'text': 'proof (over-approximating effect analysis + all normal paths) of: each plugin writes at most its allowed DltMessage fields (never index, reception time, lifecycle; '
                     'ecu/payload only in the anonymiser; timestamp only in rewrite), only iterators write index and only lifecycle code writes lifecycle, decoders return true, '
-                    'file-transfer returns false only behind !keep_flda, and the plugin stage neither drops (except on false), duplicates nor reorders.'}
+                    'file-transfer returns false only behind !keep_flda, and the plugin stage neither drops (except on false), duplicates nor reorders. Added: the pseudonym tables are keyed by the id bytes themselves (no printed / parsed / normalised key).'}
 
 PLUGIN_TRAIT = 'adlt::plugins::plugin::Plugin'
 ALLOWED = {
@@ -94,6 +94,8 @@ def run(F, chk):
     check_pseudonym_keys(F, E5)
     E8 = chk.rule('E8', 'anonymiser: the number in a new pseudonym is exactly (size of the table it is recorded in) + 1, so no two ids of a table share a pseudonym')
     check_pseudonym_numbers(F, E8)
+    E9 = chk.rule('E9', 'anonymiser: the pseudonym tables are keyed by the original id bytes themselves (no string round trip / normalisation of the key: distinct ids stay distinct)')
+    check_table_keys_verbatim(F, E9)
     E6 = chk.rule('E6', 'plugins (rewrite excepted) store a whole extended header into a message only when it has none')
     check_ext_header_only_added(F, E6)
     E7 = chk.rule('E7', 'the file-transfer plugin returns false only for messages whose apid/ctid equal the configured ones (or none is configured)')
@@ -356,3 +358,47 @@ def check_pseudonym_numbers(F, E8):
                 E8.violation(('pseudonym-number-not-table-size', b.path), '%s formats %s into a new pseudonym at %s: not the single value `table.len() + 1` - without that the numbers handed out are no longer guaranteed distinct, two different ids can receive the same pseudonym' %
                              (b.path, se[:70], b.loc(t.sp)), where=b.loc(t.sp))
     E8.floor('numbers formatted into pseudonyms', n, 1)
+
+
+# ---------------------------------------------------------------------------------------------
+# E9: table keys are the ids themselves
+
+KEY_NORMALISE = re.compile(r'(ToString::to_string|fmt::format|Display::fmt|FromStr::from_str|DltChar4::from_str|str::<impl str>::\w+|String::\w+|to_ascii_\w+|from_utf8\w*|Iterator::(map|filter|take_while|collect))$')
+
+
+def check_table_keys_verbatim(F, E9):
+    """Consistency needs the mapping id -> pseudonym to be injective on the ids that occur.  The tables are HashMaps keyed by DltChar4;
+    a key that is *derived* from the id (printed and parsed back, trimmed at the first zero byte, case folded) identifies ids
+    that differ only in what the derivation drops - e.g. Display turns every non-printable byte into one placeholder.  Every key
+    operand of get / get_mut / contains_key / insert / entry / remove on the anonymiser's tables has no string conversion or
+    id constructor in its data provenance."""
+    from prov import Prov, calls_in
+    n = 0
+    for b in F.order:
+        if not ((b.impl_self or '').startswith('adlt::plugins::anonymize::') or b.path.startswith('adlt::plugins::anonymize::')) or '::tests' in b.path:
+            continue
+        cfg = pr = None
+        for blk in b.calls():
+            t = blk.term
+            m = re.search(r'HashMap::<K, V, S(, A)?>::(get|get_mut|contains_key|insert|entry|remove)$', t.callee.path)
+            if not m or len(t.args) < 2 or 'DltChar4' not in (t.args[0].ty or ''):
+                continue
+            cfg = cfg or CFG(b)
+            pr = pr or Prov(cfg)
+            n += 1
+            E9.sites += 1
+            E9.fn(b.path)
+            toks = pr.operand(t.args[1], at=blk.i)
+            bad = sorted(set(c for c in calls_in(toks) if KEY_NORMALISE.search(c)))
+            # a crate helper that computes the key: its result must be the id itself
+            for c in calls_in(toks):
+                H = F.get(c)
+                if H is not None and H.crate == 'lib' and H.kind != 'closure' and 'DltChar4' in H.ret_type() and H.path.startswith('adlt::plugins::anonymize::'):
+                    hp = Prov(CFG(H))
+                    bad += sorted(set(c2 for c2 in calls_in(hp.origins(0)) if KEY_NORMALISE.search(c2)))
+            if bad:
+                E9.violation(('table-key-derived', b.path, m.group(2)), '%s keys a pseudonym table (%s at %s) with a value derived from the id through %s: ids that differ only in what that derivation normalises share one pseudonym' %
+                             (b.path, m.group(2), b.loc(t.sp), ', '.join(x.split('::')[-1] for x in bad[:3])), where=b.loc(t.sp))
+            else:
+                E9.ok(sample={'function': b.path, 'access': m.group(2), 'key': 'id bytes as they are in the message'})
+    E9.floor('keyed accesses of the pseudonym tables', n, 6)
